@@ -114,7 +114,9 @@ async def execute(case, transport="mem"):
                 pos[c] += 1
                 executed.append([item, c])
                 if item == "config":
-                    await conns[c].send("config", pickle.dumps(F["cfg"][c]))
+                    # by default every connection brings its own configuration; with same_cfg all bring the identical one (a client
+                    # that re-sends what it already uploaded)
+                    await conns[c].send("config", pickle.dumps(F["cfg"][0 if case.get("same_cfg") else c]))
                 elif item == "upload":
                     await conns[c].send("upload_edb", F["edb"][c])
                 elif item == "search":
@@ -208,7 +210,7 @@ async def execute(case, transport="mem"):
         if pstate < ack["state"]:
             raise Violation("a transition to state %d was acknowledged with ok:True but a probe connection afterwards is told state %r "
                             "| events: %r" % (ack["state"], pstate, executed), "M:state_rolled_back")
-        if len(ack["cfg"]) > 1 or len(ack["edb"]) > 1:
+        if (len(ack["cfg"]) > 1 and not case.get("same_cfg")) or len(ack["edb"]) > 1:
             raise Violation("more than one configuration/index was acknowledged (%r / %r) | events: %r" % (
                 sorted(ack["cfg"]), sorted(ack["edb"]), executed), "L:two_acknowledged")
         from vlib import rig
@@ -219,7 +221,7 @@ async def execute(case, transport="mem"):
                 stored = ns.server_fm.read_service_config(sid)
             except Exception as e:
                 stored = "unreadable: %s" % e
-            if stored != json.loads(json.dumps(F["cfg"][c])):
+            if stored != json.loads(json.dumps(F["cfg"][0 if case.get("same_cfg") else c])):
                 raise Violation("the acknowledged configuration (connection %d) is not the stored one | events: %r" % (c, executed),
                                 "L:acknowledged_config_lost")
         if ack["edb"]:
@@ -286,7 +288,7 @@ def run_case(case):
 
 
 # ---------------------------------------------------------------------------------------------------------
-def enumerate_schedules(scripts, limit=None, noise=0):
+def enumerate_schedules(scripts, limit=None, noise=0, same_cfg=False):
     """stateless DFS over all schedules of the given scripts (each schedule is a full re-execution)"""
     prefix = []
     n = 0
@@ -294,6 +296,8 @@ def enumerate_schedules(scripts, limit=None, noise=0):
         case = {"scripts": scripts, "choices": list(prefix)}
         if noise:
             case["noise"] = noise
+        if same_cfg:
+            case["same_cfg"] = True
         yield case
         n += 1
         if limit and n >= limit:
@@ -331,6 +335,8 @@ def st_case(draw):
     case = {"scripts": scripts, "choices": choices}
     if draw(st.integers(0, 3)) == 0:
         case["noise"] = draw(st.sampled_from([130, 200, 300]))
+    if draw(st.integers(0, 2)) == 0:
+        case["same_cfg"] = True
     return case
 
 
@@ -341,6 +347,8 @@ def confirm(res):
         case = {"scripts": v["case"]["scripts"], "choices": v["case"]["choices"]}
         if v["case"].get("noise"):
             case["noise"] = v["case"]["noise"]
+        if v["case"].get("same_cfg"):
+            case["same_cfg"] = True
         try:
             run_case(case)
         except Violation as v2:
@@ -367,7 +375,9 @@ def body(case, res):
         if info:
             cl.append("overlap" if info["overlap"] else "no_overlap")
             cl.append("ack_state:%d" % info["ack"])
-        res.count([case["scripts"], info["executed"] if info else case["choices"], case.get("noise", 0)], nt, cl,
+        if case.get("same_cfg"):
+            cl.append("all_connections_send_the_same_configuration")
+        res.count([case["scripts"], info["executed"] if info else case["choices"], case.get("noise", 0), bool(case.get("same_cfg"))], nt, cl,
                   sample={"scripts": case["scripts"], "events": info["executed"] if info else None})
 
 
@@ -391,6 +401,8 @@ def fidelity_body(case, res):
 
 # script sets whose every schedule is also enumerated with a burst of 130 connections of OTHER services as one more event
 NOISE_SCRIPTS = [[["config"], ["upload"]], [["config", "upload"], ["search"]], [[], ["config"]], [["config"], ["close"], ["upload"]]]
+# script sets whose every schedule is enumerated with all connections sending the SAME configuration
+SAME_CFG_SCRIPTS = [[["config", "upload"], ["config"], ["upload"]], [["config"], ["config", "upload"], ["upload"]]]
 
 
 def shards(tier):
@@ -400,6 +412,7 @@ def shards(tier):
     out += [{"kind": "hyp", "i": i} for i in range(2 if tier == "quick" else 8)]
     out += [{"kind": "fidelity", "i": i} for i in range(1 if tier == "quick" else 4)]
     out += [{"kind": "noise", "part": i} for i in range(len(NOISE_SCRIPTS))]
+    out += [{"kind": "same_cfg", "part": i} for i in range(len(SAME_CFG_SCRIPTS))]
     return out
 
 
@@ -415,8 +428,11 @@ def run_shard(spec, seed, tier):
     pairs, triples = script_sets(tier)
     allscripts = pairs + triples
     noise = 0
+    same_cfg = spec["kind"] == "same_cfg"
     if spec["kind"] == "noise":
         mine, noise = [NOISE_SCRIPTS[spec["part"]]], 130
+    elif same_cfg:
+        mine = [SAME_CFG_SCRIPTS[spec["part"]]]
     else:
         mine = [s for i, s in enumerate(allscripts) if i % spec["of"] == spec["part"]]
     first = {}
@@ -427,7 +443,7 @@ def run_shard(spec, seed, tier):
             res.notes.append("enumeration stopped early: three script sets already violate an invariant")
             res.exhaustive = False
             break
-        for case in enumerate_schedules(scripts, noise=noise):
+        for case in enumerate_schedules(scripts, noise=noise, same_cfg=same_cfg):
             nsched += 1
             try:
                 body(case, res)
@@ -436,12 +452,21 @@ def run_shard(spec, seed, tier):
                     c = {"scripts": case["scripts"], "choices": case["choices"]}
                     if case.get("noise"):
                         c["noise"] = case["noise"]
+                    if case.get("same_cfg"):
+                        c["same_cfg"] = True
                     first[v.bucket] = (c, str(v))
                 # continue the enumeration below this schedule is impossible without its branching factors: stop this script set
                 violating_sets += 1
                 break
     if res.exhaustive is None:
         res.exhaustive = True
+    if spec["kind"] == "same_cfg":
+        res.extra["same_cfg_schedules"] = nsched
+        res.extra["same_cfg_bounds"] = "every schedule of %d three-connection script sets in which all connections send the same configuration" % len(SAME_CFG_SCRIPTS)
+        for bucket, (case, msg) in first.items():
+            res.add_violation(case, msg, bucket)
+        confirm(res)
+        return res
     if spec["kind"] == "noise":
         res.extra["noise_schedules"] = nsched
         res.extra["noise_bounds"] = "every schedule of %d script sets with a burst of 130 connections of other services as one more event" % len(NOISE_SCRIPTS)
